@@ -57,7 +57,10 @@ def run(ctx):
     # what is advertised is what is recorded only if every successful return of the allocator went through the write
     from .c18 import _r1 as write_dominates_ok
     write_dominates_ok(ctx, W)
-    ctx.include("C18", rules=("R11", "R12", "R9"))
+    ctx.include("C18", rules=("R11", "R12", "R9", "R2"))
+    ctx.include("C01", rules=("R1", "R7"))      # what else may change or delete a recorded lease before t + L
+    from . import c19
+    c19.lease_bounds(ctx)
     _r5_reply_leaves_the_dispatcher_untouched(ctx)
     Tw = terms(P, wbody)
     where = ctx.where(wbody, W.term["sp"])
